@@ -42,8 +42,8 @@ class C02(Prop):
             "these cases - X only, with the caller's own sklearn instance fitted on rows <= t and no transformer_end: "
             "observations, rewards, done flags up to t must be identical. Non-trivial = the perturbation actually "
             "changed a later output (so the comparison is not vacuous); distinct = distinct cases")
-    rule = rule + es.CONTEXT_RULE
-    nontrivial_tags = {"later-output-changed", "xy-later-output-changed"}
+    rule = rule + "; a few per cent of the cases use pandas Timestamps at nanosecond resolution (grid points with a sub-microsecond part, quotes 400 ns .. 3 us after a grid point, a latency of 1.5 us in C08), judged by the oracle alone" + es.CONTEXT_RULE
+    nontrivial_tags = {"nanosecond-stamps", "later-output-changed", "xy-later-output-changed"}
     assumptions = [
         "perturbations change values, not timestamps (the property's hypothesis: same event-bearing steps)",
         "sklearn's fit/transform are opaque; what is checked is that nothing dated after transformer_end reaches them "
@@ -53,6 +53,8 @@ class C02(Prop):
     COMPARE = {"ereset", "log", "step", "stepi", "state", "nrec"}
 
     def gen(self, rng, tier):
+        if rng.random() < 0.05:
+            return es.gen_ns_case(rng, 0)
         if rng.random() < 0.3:
             return self.gen_xy(rng, tier)
         case, grid, keys = es.gen_episode(rng, tier, markov=rng.random() < 0.15, one_per_bar=False)
@@ -86,6 +88,13 @@ class C02(Prop):
         return c2
 
     def run_impl(self, case):
+
+        if case.get("kind") == "ns":
+            # nanosecond-resolution pandas stamps: judged by the oracle alone (the model's unit is the microsecond)
+            from ..runner import ImplRun as _IR
+            r = _IR()
+            es.judge_ns_case(r, case, es.run_ns_case(case), exec_prices=bool(case.get("latency_ns")))
+            return r
         if case.get("kind") == "xy":
             return self.run_xy(case)
         r, s = es.run_case(case, self.COMPARE)
